@@ -299,6 +299,73 @@ func Harness_C14(n int) {
 	symReach("end")
 }
 ''')
+    if "C16" in props:
+        s.append('''
+func hasMaxErr(err error) bool {
+	for _, m := range errStrings(err) {
+		if len(m) >= 32 && m[len(m)-32:] == "max number of expressions parsed" {
+			return true
+		}
+	}
+	return false
+}
+
+// C16: MaxExpressions(n) bounds every parse and reports the exhaustion.
+func Harness_C16(n int) {
+	in := symInput(n, true)
+	budget := symU64("budget")
+	symAssume(budget >= 1)
+	symAssume(budget <= %d)
+	memo := symBool("memoize")
+	var st Stats
+	o := runReal(in, MaxExpressions(budget), Memoize(memo), Statistics(&st, "no match"))
+	symNote(outcomeNote(o))
+	symAssert(!o.panicked, "C16: the budget panic escaped Parse")
+	hit := hasMaxErr(o.err)
+	symAssert(st.ExprCnt <= budget+1, "C16: more expressions were evaluated than the budget allows")
+	if hit {
+		symAssert(o.v == nil, "C16: value returned although the budget was exhausted")
+		symAssert(st.ExprCnt == budget+1, "C16: budget error reported before the budget was exhausted")
+	}
+	if %s {
+		// terminating grammar: an unexhausted budget gives the unbounded result
+		var st0 Stats
+		o0 := runReal(in, Memoize(memo), Statistics(&st0, "no match"))
+		if !hit {
+			symAssert(symEqual(o.v, o0.v), "C16: value differs from the unbounded parse")
+			symAssert(sameStrings(errStrings(o.err), errStrings(o0.err)), "C16: errors differ from the unbounded parse")
+			symAssert(st.ExprCnt == st0.ExprCnt, "C16: expression count differs from the unbounded parse")
+		} else {
+			symAssert(st0.ExprCnt > budget, "C16: budget error although the unbounded parse needs no more than the budget")
+		}
+	} else {
+		// non-terminating grammar: the parse must end, by the budget
+		_ = hit
+	}
+	symReach("end")
+}
+''' % (int(g.get("budget_max", 24)), "true" if not g.get("nonterminating") else "false"))
+    if "C08" in props:
+        s.append('''
+// C08: left-recursive rules parse as the left-associative iteration they denote.
+func Harness_C08(n int) {
+	in := symInput(n, true)
+%s
+	r := ref.Run(refG, symEntry, in, refConfig())
+	symNote(outcomeNote(o))
+	symAssert(!o.panicked, "C08: Parse panicked")
+	symAssert((o.v != nil) == r.OK, "C08: acceptance differs from the iterative definition")
+	if r.OK {
+		symDebug("real", o.v)
+		symDebug("ref", r.Val)
+		symAssert(symEqual(o.v, r.Val), "C08: value is not the left-nested result")
+	}
+	if !ambiguousStart(r, in) {
+		symAssert(sameStrings(errStrings(o.err), r.Errs), "C08: errors differ")
+	}
+	symReach("end")
+}
+''' % ("\to := runReal(in)" if g.get("_optimized") else "\tmemo := symBool(\"memoize\")\n\to := runReal(in, Memoize(memo))"))
     if "C11" in props:
         s.append('''
 // C11: error contract under a symbolic fault plan.
